@@ -2,7 +2,7 @@
 (* Property-level semantics: what the output must be, stated independently of how svgbob    *)
 (* computes it.  Every operator takes the recorded input (rows of code points, 1-based) and  *)
 (* the abstract document recorded from the real code.                                       *)
-EXTENDS Elems
+EXTENDS Elems, Catalogue
 
 SP == 32  DASH == 45  BAR == 124  PLUS == 43  QUOTE == 34  NUL == 0
 
@@ -327,4 +327,211 @@ C05box_OK(ev) ==
      /\ HasCls(e, "nofill") /\ e.g = 0
   /\ \A i \in Idx(ev.doc) : i \notin R => IsText(ev.doc.elems[i]) /\ TextMatches(crs, ev.doc.elems[i])
   /\ NonDrawingCells(crs) \subseteq UNION { TextCovered(ev.doc.elems[i]) : i \in OfKind(ev.doc, "text") }
+
+---------------------------------------------------------------------------
+(* C13 — catalogue circles.  ev.circ = [idx, k, n, extra]                                   *)
+DrawingW(D) == SetMax({ Len(D[r]) : r \in 1..Len(D) })
+Flush(D) == \E r \in 1..Len(D) : Len(D[r]) > 0 /\ D[r][1] \in {47, 92}
+RadiusOf(D) == IF Flush(D) THEN DrawingW(D) * 4 ELSE (DrawingW(D) - 1) * 4         \* lattice units
+LeftOf(D, k) == IF Flush(D) THEN CW * k ELSE CW * k + 4
+PlacedRows(D, k, n) == [i \in 1..n |-> <<>>] \o [i \in 1..Len(D) |-> [j \in 1..k |-> SP] \o D[i]]
+\* every character of the drawing lies within about one cell (1 1/4 cell heights = 20 units) of the circle
+NearCircle(D, k, n, cx, cy, rad) ==
+  \A i \in 1..Len(D) : \A j \in 1..Len(D[i]) : D[i][j] # SP =>
+     LET px == CW * (k + j - 1) + 4  py == CH * (n + i - 1) + 8
+         d2 == (px - cx) * (px - cx) + (py - cy) * (py - cy)
+         lo == IF rad > 20 THEN (rad - 20) * (rad - 20) ELSE 0 IN
+     lo <= d2 /\ d2 <= (rad + 20) * (rad + 20)
+CircleOracle(D, k, n, e) ==
+  /\ IsCircle(e) /\ AllOnLattice(e.n)
+  /\ U(e.n[3]) = RadiusOf(D)
+  /\ U(e.n[1]) - U(e.n[3]) = LeftOf(D, k)
+  /\ NearCircle(D, k, n, U(e.n[1]), U(e.n[2]), U(e.n[3]))
+C13_OK(ev) ==
+  LET D == CircleDrawings[ev.circ.idx] k == ev.circ.k n == ev.circ.n
+      C == { i \in Idx(ev.doc) : IsCircle(ev.doc.elems[i]) } IN
+  /\ ev.doc.wf = 1
+  /\ SubSeq(ev.rows, 1, n + Len(D)) = PlacedRows(D, k, n)
+  /\ Cardinality(C) = 1
+  /\ CircleOracle(D, k, n, ev.doc.elems[CHOOSE i \in C : TRUE])
+  /\ IF ev.circ.extra = 0 THEN Len(ev.doc.elems) = 1 /\ Len(ev.rows) = n + Len(D)
+     ELSE \* unrelated content below, separated by a blank row: nothing else inside the drawing's rows
+          /\ Len(ev.rows) > n + Len(D) /\ ev.rows[n + Len(D) + 1] = <<>>
+          /\ \A i \in Idx(ev.doc) : i \notin C =>
+               \A j \in 1..Len(ev.doc.elems[i].n) : ev.doc.elems[i].role[j] = 1 => ev.doc.elems[i].n[j] >= (n + Len(D) + 1) * CH * MILLI
+
+---------------------------------------------------------------------------
+(* C14 — arrowheads, bullets, rounded corners (all in 1/8 lattice units, integers)           *)
+Rep(ch, cnt) == [j \in 1..cnt |-> ch]
+\* ev.arrow = [dir, len, k, n, g (glyph), body (line character)]
+ArrowRows(a) ==
+  LET pre == [i \in 1..a.n |-> <<>>] L == a.len IN
+  pre \o
+  (CASE a.dir = "r"  -> << Rep(SP, a.k) \o Rep(a.body, L) \o <<a.g>> >>
+     [] a.dir = "l"  -> << Rep(SP, a.k) \o <<a.g>> \o Rep(a.body, L) >>
+     [] a.dir = "u"  -> << Rep(SP, a.k) \o <<a.g>> >> \o [i \in 1..L |-> Rep(SP, a.k) \o <<a.body>>]
+     [] a.dir = "d"  -> [i \in 1..L |-> Rep(SP, a.k) \o <<a.body>>] \o << Rep(SP, a.k) \o <<a.g>> >>
+     [] a.dir = "dr" -> [i \in 1..L |-> Rep(SP, a.k + i - 1) \o <<a.body>>] \o << Rep(SP, a.k + L) \o <<a.g>> >>
+     [] a.dir = "dl" -> [i \in 1..L |-> Rep(SP, a.k + L - i + 1) \o <<a.body>>] \o << Rep(SP, a.k) \o <<a.g>> >>
+     [] a.dir = "ul" -> << Rep(SP, a.k) \o <<a.g>> >> \o [i \in 1..L |-> Rep(SP, a.k + i) \o <<a.body>>]
+     [] OTHER        -> << Rep(SP, a.k + L) \o <<a.g>> >> \o [i \in 1..L |-> Rep(SP, a.k + L - i) \o <<a.body>>])
+\* the cell (0-based column, row) of the arrow glyph
+ArrowCell(a) ==
+  CASE a.dir = "r" -> <<a.k + a.len, a.n>> [] a.dir = "l" -> <<a.k, a.n>>
+    [] a.dir = "u" -> <<a.k, a.n>> [] a.dir = "d" -> <<a.k, a.n + a.len>>
+    [] a.dir = "dr" -> <<a.k + a.len, a.n + a.len>> [] a.dir = "dl" -> <<a.k, a.n + a.len>>
+    [] a.dir = "ul" -> <<a.k, a.n>> [] OTHER -> <<a.k + a.len, a.n>>
+Dot(p, q) == p[1] * q[1] + p[2] * q[2]
+Sub(p, q) == <<p[1] - q[1], p[2] - q[2]>>
+PolyPts(e) == [i \in 1..(Len(e.n) \div 2) |-> <<E8(e.n[2 * i - 1]), E8(e.n[2 * i])>>]
+InCellBox(P, cell) == /\ P[1] >= cell[1] * 64 /\ P[1] <= (cell[1] + 1) * 64
+                      /\ P[2] >= cell[2] * 128 /\ P[2] <= (cell[2] + 1) * 128
+\* with the line oriented A -> B (B is the end the head sits on)
+ArrowGeom(A, B, pts, cell) ==
+  LET v == Sub(B, A) pr(P) == Dot(Sub(P, A), v)
+      tip == CHOOSE i \in 1..3 : \A j \in 1..3 : pr(pts[j]) <= pr(pts[i])
+      others == (1..3) \ {tip}
+      q1 == pts[CHOOSE i \in others : TRUE] q2 == pts[CHOOSE i \in others : pts[i] # q1 \/ Cardinality(others) = 1] IN
+  /\ v # <<0, 0>>
+  /\ Cross(A, B, pts[tip]) = 0                                   \* tip on the line's axis
+  /\ pr(pts[tip]) > pr(B)                                        \* beyond the line's end
+  /\ \A j \in others : pr(pts[j]) < pr(pts[tip])               \* points away from the line
+  /\ \E i, j \in others : Cross(A, B, pts[i]) > 0 /\ Cross(A, B, pts[j]) < 0    \* base straddles the axis
+  /\ \A j \in others : pr(pts[j]) >= pr(B) - Dot(v, v)          \* the base is at the head's end of the line
+  /\ InCellBox(pts[tip], cell)                                   \* the tip sits in the glyph's cell
+C14arrow_OK(ev) ==
+  LET a == ev.arrow
+      P == { i \in Idx(ev.doc) : IsPolygon(ev.doc.elems[i]) }
+      Ls == { i \in Idx(ev.doc) : IsLine(ev.doc.elems[i]) } IN
+  /\ ev.doc.wf = 1 /\ ev.rows = ArrowRows(a)
+  /\ Cardinality(P) = 1 /\ Cardinality(Ls) = 1 /\ Len(ev.doc.elems) = 2
+  /\ LET pe == ev.doc.elems[CHOOSE i \in P : TRUE] le == ev.doc.elems[CHOOSE i \in Ls : TRUE]
+         pts == PolyPts(pe) IN
+     /\ HasCls(pe, "filled") /\ Len(pts) = 3 /\ IsPlainLine(le)
+     /\ (ArrowGeom(LP1(le), LP2(le), pts, ArrowCell(a)) \/ ArrowGeom(LP2(le), LP1(le), pts, ArrowCell(a)))
+
+\* ev.bullet = [ch (* o O), pos ("start" | "end" | "mid"), len, k, n]: a horizontal line of dashes
+BulletRows(b) ==
+  [i \in 1..b.n |-> <<>>] \o
+  << Rep(SP, b.k) \o (CASE b.pos = "start" -> <<b.ch>> \o Rep(DASH, b.len)
+                        [] b.pos = "end" -> Rep(DASH, b.len) \o <<b.ch>>
+                        [] OTHER -> Rep(DASH, b.len) \o <<b.ch>> \o Rep(DASH, b.len)) >>
+BulletCol(b) == IF b.pos = "start" THEN b.k ELSE b.k + b.len
+MarkerClass(ch) == IF ch = 42 THEN "marked_circle" ELSE IF ch = 111 THEN "marked_open_circle" ELSE "marked_big_open_circle"
+C14bullet_OK(ev) ==
+  LET b == ev.bullet
+      centre == <<(BulletCol(b) * CW + 4) * MILLI, (b.n * CH + 8) * MILLI>>
+      marked(e) == \/ (HasCls(e, "end_" \o MarkerClass(b.ch)) /\ <<e.n[3], e.n[4]>> = centre)
+                   \/ (HasCls(e, "start_" \o MarkerClass(b.ch)) /\ <<e.n[1], e.n[2]>> = centre) IN
+  /\ ev.doc.wf = 1 /\ ev.rows = BulletRows(b)
+  /\ \E i \in Idx(ev.doc) : IsLine(ev.doc.elems[i]) /\ marked(ev.doc.elems[i])
+  /\ \A i \in Idx(ev.doc) : IsLine(ev.doc.elems[i]) \/ IsText(ev.doc.elems[i])
+  /\ \A i \in OfKind(ev.doc, "text") : b.ch \notin RangeOf(ev.doc.elems[i].s)        \* the bullet is not shown as text
+  /\ \A i \in Idx(ev.doc) : IsLine(ev.doc.elems[i]) => ev.doc.elems[i].n[2] = centre[2] /\ ev.doc.elems[i].n[4] = centre[2]
+
+\* ev.outline = [k, n, w, h, tl, tr, bl, br]: a rounded outline (interior w x h) with a two-dash stub on
+\* the right side of its first interior row, so that it is not endorsed as a rect
+OutlineRows(o) ==
+  [i \in 1..o.n |-> <<>>] \o
+  << Rep(SP, o.k) \o <<o.tl>> \o Rep(DASH, o.w) \o <<o.tr>> >> \o
+  [i \in 1..o.h |-> Rep(SP, o.k) \o <<BAR>> \o Rep(SP, o.w) \o <<BAR>> \o (IF i = 1 THEN <<DASH, DASH>> ELSE <<>>)] \o
+  << Rep(SP, o.k) \o <<o.bl>> \o Rep(DASH, o.w) \o <<o.br>> >>
+ArcP1(e) == <<E8(e.n[1]), E8(e.n[2])>>
+ArcP2(e) == <<E8(e.n[5]), E8(e.n[6])>>
+\* for a quarter arc the centre is one of the two "corner completions" of its chord; the sweep flag says
+\* which: sweep = 1 puts the centre where cross(chord, centre - P1) > 0 (y grows downwards)
+ArcCentre(e) ==
+  LET p1 == ArcP1(e) p2 == ArcP2(e) c1 == <<p1[1], p2[2]>> c2 == <<p2[1], p1[2]>>
+      cr(c) == (p2[1] - p1[1]) * (c[2] - p1[2]) - (p2[2] - p1[2]) * (c[1] - p1[1]) IN
+  IF (e.fl[3] = 1) = (cr(c1) > 0) THEN c1 ELSE c2
+ArcSharpCorner(e) == LET p1 == ArcP1(e) p2 == ArcP2(e) c == ArcCentre(e) IN
+  IF c = <<p1[1], p2[2]>> THEN <<p2[1], p1[2]>> ELSE <<p1[1], p2[2]>>
+C14corner_OK(ev) ==
+  LET o == ev.outline
+      x0 == (o.k * CW + 4) * 8  y0 == (o.n * CH + 8) * 8
+      x1 == ((o.k + o.w + 1) * CW + 4) * 8  y1 == ((o.n + o.h + 1) * CH + 8) * 8
+      corners == { <<x0, y0>>, <<x1, y0>>, <<x0, y1>>, <<x1, y1>> }
+      A == { i \in Idx(ev.doc) : IsPath(ev.doc.elems[i]) }
+      Ls == { i \in Idx(ev.doc) : IsLine(ev.doc.elems[i]) }
+      lineEnds == UNION { { LP1(ev.doc.elems[i]), LP2(ev.doc.elems[i]) } : i \in Ls } IN
+  /\ ev.doc.wf = 1 /\ ev.rows = OutlineRows(o)
+  /\ Cardinality(A) = 4
+  /\ \A i \in Idx(ev.doc) : ~IsRect(ev.doc.elems[i])
+  /\ \A i \in A : LET e == ev.doc.elems[i] IN
+        /\ Len(e.fl) = 3 /\ e.fl[2] = 0 /\ e.n[3] = e.n[4]                                    \* small circular arc
+        /\ Abs(ArcP1(e)[1] - ArcP2(e)[1]) = E8(e.n[3]) /\ Abs(ArcP1(e)[2] - ArcP2(e)[2]) = E8(e.n[3])   \* a quarter
+        /\ ArcP1(e) \in lineEnds /\ ArcP2(e) \in lineEnds                                     \* outline is continuous
+        /\ ArcSharpCorner(e) \in corners                                                       \* bulges outward:
+        /\ LET c == ArcCentre(e) IN c[1] > x0 /\ c[1] < x1 /\ c[2] > y0 /\ c[2] < y1           \* centre on the inner side
+  /\ { ArcSharpCorner(ev.doc.elems[i]) : i \in A } = corners
+
+---------------------------------------------------------------------------
+(* C16 — legend entries become CSS rules; {tags} style the innermost enclosing shape         *)
+\* ev.legend = [entries |-> << <<name, decl, eqstyle>>, ... >>]; eqstyle 0: "name = {decl}", 1: "name={decl}",
+\* 2: "name  =<TAB> {decl}" (an entry starts its line: no leading blanks).  The legend text the driver claims to have appended:
+Join(seqs, sep) == IF seqs = <<>> THEN <<>> ELSE FoldLeft(LAMBDA a, x : a \o sep \o x, seqs[1], SubSeq(seqs, 2, Len(seqs)))
+EntryText(en) == CASE en[3] = 1 -> en[1] \o <<61, 123>> \o en[2] \o <<125>>
+                   [] en[3] = 2 -> en[1] \o <<32, 32, 61, 9, 32, 123>> \o en[2] \o <<125>>
+                   [] OTHER -> en[1] \o <<32, 61, 32, 123>> \o en[2] \o <<125>>
+RuleText(en) == <<46, 115, 118, 103, 98, 111, 98, 32, 46>> \o en[1] \o <<123, 32>> \o en[2] \o <<32, 125>>   \* ".svgbob .name{ decl }"
+FlatRows(rows) == Join(rows, <<10>>)
+EndsWith(t, suffix) == Len(suffix) <= Len(t) /\ SubSeq(t, Len(t) - Len(suffix) + 1, Len(t)) = suffix
+TrimTrailingLF(t) == LET idx == { i \in 1..Len(t) : t[i] \notin {10, 32, 9, 13} } IN IF idx = {} THEN <<>> ELSE SubSeq(t, 1, SetMax(idx))
+C16legend_OK(ev) ==
+  LET la == LegendAt(ev.rows) ents == ev.legend.entries
+      after == SubSeq(ev.rows, la + 1, Len(ev.rows)) IN
+  /\ ev.doc.wf = 1 /\ la > 0
+  /\ \A i \in 1..Len(ents) : IsIdent(ents[i][1]) /\ 123 \notin RangeOf(ents[i][2]) /\ 125 \notin RangeOf(ents[i][2])
+  /\ TrimTrailingLF(FlatRows(after)) = Join([i \in 1..Len(ents) |-> EntryText(ents[i])], <<10>>)      \* the input is the claimed legend
+  \* never drawn: every y-like number lies above the legend row
+  /\ \A i \in Idx(ev.doc) : \A j \in 1..Len(ev.doc.elems[i].n) :
+        ev.doc.elems[i].role[j] = 1 => ev.doc.elems[i].n[j] <= (la - 1) * CH * MILLI
+  \* the rules, in order, at the end of the style text
+  /\ ev.doc.nstyle = 1
+  /\ (ents # <<>> => EndsWith(FlatRows(ev.doc.style), Join([i \in 1..Len(ents) |-> RuleText(ents[i])], <<10>>)))
+
+\* ev.tags = << [r, c (0-based cell of the '{'), names |-> << name, ... >>, inside |-> 0/1] >>
+TagText(tg) == <<123>> \o Join(tg.names, <<44>>) \o <<125>>
+ShapeBox(e) == IF IsRect(e) THEN <<e.n[1], e.n[2], e.n[1] + e.n[3], e.n[2] + e.n[4]>>
+               ELSE <<e.n[1] - e.n[3], e.n[2] - e.n[3], e.n[1] + e.n[3], e.n[2] + e.n[3]>>
+TagBox(tg) == << tg.c * CW * MILLI, tg.r * CH * MILLI, (tg.c + Len(TagText(tg))) * CW * MILLI, (tg.r + 1) * CH * MILLI >>
+BoxIn(b, B) == B[1] <= b[1] /\ B[2] <= b[2] /\ b[3] <= B[3] /\ b[4] <= B[4]
+BoxArea(B) == ((B[3] - B[1]) \div MILLI) * ((B[4] - B[2]) \div MILLI)
+Shapes(doc) == { i \in Idx(doc) : (IsRect(doc.elems[i]) /\ ~HasCls(doc.elems[i], "filled")) \/ IsCircle(doc.elems[i]) }
+ClsNames(e) == { e.cls[i] : i \in 1..Len(e.cls) }
+XS(e) == { e.n[j] : j \in { q \in 1..Len(e.n) : e.role[q] = 0 } }
+YS(e) == { e.n[j] : j \in { q \in 1..Len(e.n) : e.role[q] = 1 } }
+ElemBBox(e) == IF IsRect(e) \/ IsCircle(e) THEN ShapeBox(e)
+               ELSE IF XS(e) = {} \/ YS(e) = {} THEN <<0, 0, -1, -1>>
+               ELSE <<SetMin(XS(e)), SetMin(YS(e)), SetMax(XS(e)), SetMax(YS(e))>>
+BuiltinCls == {"solid", "broken", "nofill", "filled", "bg_filled", "backdrop"} \cup MarkerClasses
+TagOK(ev, tg) ==
+  LET doc == ev.doc
+      enclosing == { i \in Shapes(doc) : BoxIn(TagBox(tg), ShapeBox(doc.elems[i])) }
+      anchor == << (tg.c * CW + 2) * MILLI, (tg.r * CH + 12) * MILLI >>
+      shownAsText == \E i \in OfKind(doc, "text") : <<doc.elems[i].n[1], doc.elems[i].n[2]>> = anchor /\ doc.elems[i].s = TagText(tg) IN
+  /\ SubSeq(ev.rows[tg.r + 1], tg.c + 1, tg.c + Len(TagText(tg))) = TagText(tg)          \* the input has the tag there
+  /\ \A i \in 1..Len(tg.names) : IsIdent(tg.names[i])
+  /\ IF tg.inside = 1
+     THEN /\ enclosing # {}
+          /\ LET inner == CHOOSE i \in enclosing : \A j \in enclosing : BoxArea(ShapeBox(doc.elems[i])) <= BoxArea(ShapeBox(doc.elems[j])) IN
+             /\ \A m \in 1..Len(tg.names) : \E q \in 1..Len(doc.elems[inner].cls) : ev.clsmap[doc.elems[inner].cls[q]] = tg.names[m]
+          /\ ~shownAsText
+     ELSE /\ \A i \in Idx(doc) : ~IsText(doc.elems[i]) => ~BoxIn(TagBox(tg), ElemBBox(doc.elems[i]))    \* the statement's domain
+          /\ shownAsText
+C16tags_OK(ev) ==
+  /\ ev.doc.wf = 1
+  /\ \A i \in 1..Len(ev.tags) : TagOK(ev, ev.tags[i])
+  \* no tag name leaks onto a shape that does not enclose its tag
+  /\ \A i \in Idx(ev.doc) : \A q \in 1..Len(ev.doc.elems[i].cls) :
+        ev.doc.elems[i].cls[q] \notin BuiltinCls =>
+          /\ i \in Shapes(ev.doc)
+          /\ \E t \in 1..Len(ev.tags) : /\ ev.tags[t].inside = 1 /\ ev.clsmap[ev.doc.elems[i].cls[q]] \in RangeOf(ev.tags[t].names)
+                                        /\ BoxIn(TagBox(ev.tags[t]), ShapeBox(ev.doc.elems[i]))
+  \* other text is unaffected: every label cell that is not part of a tag is still covered by a text element
+  /\ LET crs == DrawCells(ev)
+         tagcells == UNION { { <<ev.tags[t].r + 1, ev.tags[t].c + j>> : j \in 1..Len(TagText(ev.tags[t])) } : t \in 1..Len(ev.tags) }
+         T == OfKind(ev.doc, "text") IN
+     /\ \A i \in T : TextMatches(crs, ev.doc.elems[i])
+     /\ (NonDrawingCells(crs) \ tagcells) \subseteq UNION { TextCovered(ev.doc.elems[i]) : i \in T }
 =============================================================================
